@@ -154,6 +154,17 @@ def _body(ctx, rng, s, V, extras, sm, E):
             dv = M.call(der.value.at, 1.5)
             if dv.kind not in ("num", "DomainError"):
                 ctx.violation("derivative_at_number_failed", f"Derivative({what0}).at(1.5) gave {dv.brief()}")
+            # ... and at Points that supply the variables (if any), with extras written before or after them
+            for pdx in (dict(pd1), {"extra_first": 9.0, **pd1}, {**pd1, "extra_last": 9.0}):
+                for early in (False, True):
+                    dp = M.call(lambda: sm.Derivative(S.build(s), compute_early=early).at(sm.Point(**pdx)))
+                    ctx.evaluation()
+                    if dp.kind == "CoordinateMissing":
+                        ctx.violation("coordinate_missing_though_supplied", f"Derivative({what0}, compute_early={early}).at({S.show_point(pdx)}): all variables {V} are supplied, got {dp.brief()}")
+                    elif dp.kind not in ("num", "DomainError"):
+                        ctx.violation("foreign_exception", f"Derivative({what0}, compute_early={early}).at({S.show_point(pdx)}): {dp.brief()}")
+                    elif dv.kind == "num" and dp.kind == "num" and not early and dp.numbits() != dv.numbits():
+                        ctx.violation("derivative_depends_on_extra_coordinates", f"Derivative({what0}).at(1.5) = {dv.value!r} but at({S.show_point(pdx)}) = {dp.value!r}")
     else:
         if num.kind in ("num", "badnum", "DomainError", "CoordinateMissing"):
             ctx.violation("bare_number_accepted", f"{what0} has variables {V} but at(1.5) gave {num.brief()} instead of rejecting the call")
